@@ -377,3 +377,40 @@ def c14(ctx):
            "concurrent_rounds": summ["concurrent_rounds"], "distinct_nontrivial": ps_nontrivial(tr), "rule": rule,
            "samples": summ["samples"] or [{"note": "no short sample"}], "exhaustive": False}
     return vlib.finish(ctx, cov)
+
+
+@register("C16")
+def c16(ctx):
+    quick = ctx.tier == "quick"
+    ctx.assumptions += ["the member under test runs in a child process (the test binary re-executes itself): a crash is a real process exit",
+                        "watchdog 1.5 s per request; lock requests use fresh keys so that no request legitimately waits",
+                        "for raw byte streams a closed connection (protocol error) or a connection waiting for the rest of a frame is admitted"]
+    rule = ("for each of the 30 registered commands (lower and upper case) every prefix of its argument slots with up to %d positions replaced by every "
+            "member of the slot's alphabet (numbers: empty, 0, 1, -1, 1e400, 2^63, 2^64, -2^63-1, NaN, abc, 0.01, 1.5; partition ids 0, P-1, P, P+1, 2^64-1, -1, x; "
+            "option keywords in both cases, unknown, empty, binary; valid/unknown/empty/binary DMap names; keys incl. empty and 300 bytes; structured "
+            "payloads: well-formed msgpack with absurd fields, e.g. a table pack claiming 2^62 bytes); seeded random vectors; raw byte streams; every vector "
+            "goes over TCP to a real two-member cluster, followed by PING on the same and periodically on another connection; non-trivial = the vector has arguments") % (2 if quick else 3)
+    design = [("Protocol", "Protocol.cfg", {})]
+    e = {"VERIF_C16_ANOMALIES": 2 if quick else 3, "VERIF_C16_RANDOM": 3000 if quick else 60000, "VERIF_C16_RAW": 400 if quick else 5000}
+    for m, c, kw in design:
+        vlib.design_check(ctx, m, c, **kw)
+    out = ctx.dir("drv")
+    e["VERIF_OUT"] = out
+    rc, o = vlib.go_test(ctx, "proto", "TestC16$", env=e, timeout=3000)
+    if crash_or_fail(ctx, rc, o, "sending request vectors"):
+        return vlib.finish(ctx, {"evaluations": 0, "distinct_nontrivial": 0, "rule": rule, "samples": ["crash"]})
+    summ = json.load(open(os.path.join(out, "c16.summary.json")))
+    accepted, failures = vlib.validate_chunks(ctx, "ProtocolTrace", "ProtocolTrace.cfg", os.path.join(out, "c16.ndjson"), consts={},
+                                              name="c16", chunk_lines=10 ** 9)
+    nbad = 0
+    for seq_lines, line, msg in failures:
+        ev = json.loads(seq_lines[line - 1])
+        nbad += 1
+        vlib.report_failure(ctx, "protocol robustness: %s: %s" % (msg, ev.get("args", ev.get("cmd"))),
+                            {"kind": "request", "cmd": ev.get("cmd"), "outcome": ev.get("outcome")},
+                            {"request": ev, "replay": "send the bytes in `args` to a member over TCP"})
+    ctx.traces = summ["evaluations"] - nbad
+    cov = {"evaluations": summ["evaluations"], "exhaustive_vectors": summ["exhaustive_vectors"], "random_vectors": summ["random_vectors"],
+           "raw_streams": summ["raw_streams"], "outcomes": summ["outcomes"], "distinct_nontrivial": summ["distinct_nontrivial"],
+           "rule": rule, "samples": summ["samples"] or [{"note": "none"}], "exhaustive": False}
+    return vlib.finish(ctx, cov)
